@@ -16,7 +16,7 @@ RULE = ("one real ExtendedDaemonSet Reconcile per point of the product of the qu
         "x replica-set age {duration-1s, duration, duration+1s} x noRestartsDuration {unset, 0, 300s} x last restart {none, "
         "noRestarts-1s ago, noRestarts+1s ago} x pause source {none, annotation, replica-set condition} x unpause {absent, true} x "
         "canary-valid {absent, this replica set, another} x Canary-Failed {no, yes} x recorded active replica set {present, gone}: "
-        "15552 points, enumerated completely in the thorough tier, sampled (400) in the quick tier, plus random ExtendedDaemonSet "
+        "23328 points, enumerated completely in the thorough tier, sampled (400) in the quick tier, plus random ExtendedDaemonSet "
         "worlds. Non-trivial = a status write changed or could have changed activeReplicaSet (two distinct candidates).")
 ASSUMPTIONS = [
     "the two replica-set pointers never alias inside Reconcile (the up-to-date one is a deep copy)",
@@ -45,7 +45,7 @@ FACTORS = [
     [False, True],                        # unpause annotation
     [None, "this", "other"],              # canary-valid
     [False, True],                        # failed
-    [True, False],                        # active present
+    [True, False, "terminating"],         # active replica set: present, gone, or marked for deletion but still there (a finalizer holds it)
     [False, True],                        # status.canary still names the replica set of an earlier canary (the one "other" names)
 ]
 
@@ -83,7 +83,8 @@ def lattice_case(pt):
                        canary={"replicaSet": "foo-zz" if stale else "foo-b", "nodes": ["n0"]} if canary else None)
     objs.append(K.eds(NS, EDS, tplB, strategy=s, annotations=ann or None, status=est))
     if active_present:
-        objs.append(K.ers(NS, "foo-a", EDS, tplA, created=-3000, status=K.ers_status(status="active", desired=2, current=2, ready=2, available=2)))
+        objs.append(K.ers(NS, "foo-a", EDS, tplA, created=-3000, deleting=(active_present == "terminating"),
+                          status=K.ers_status(status="active", desired=2, current=2, ready=2, available=2)))
     objs.append(K.ers(NS, "foo-b", EDS, tplB, created=-(DUR + age), status=K.ers_status(status="canary", desired=1, current=1, ready=1, available=1, conditions=conds)))
     return {"kind": "world", "objects": objs, "ops": [K.reconcile("eds", NS, EDS)], "options": {"affinity": False, "default_mode": "auto"},
             "lattice_point": list(map(str, pt))}
@@ -95,7 +96,7 @@ def generate(rng, tier, stats):
         pts = rng.sample(pts, 400)
     out = [lattice_case(pt) for pt in pts]
     stats["lattice_points"] = len(pts)
-    stats["lattice_total"] = 15552
+    stats["lattice_total"] = 23328
     nw = 100 if tier == "quick" else 1500
     for _ in range(nw):
         out.append(worldgen.gen_eds_world(rng, stats, {"scenario": rng.choice(["canary_running", "canary_running", "canary_failed", "active_missing", "no_canary_update", "many_rs"])}))
